@@ -115,10 +115,11 @@ Definition mem_nat (i : nat) (l : list nat) : bool := existsb (Nat.eqb i) l.
 Definition next_script (s : lstate) : svc * list svc :=
   match scripts s with x :: r => (x, r) | [] => (SHang, []) end.
 
-(* the name under lookup, and the store-side effect of a successful flight (store.go:400-407) *)
+(* the name under lookup, and the store-side effect of a successful flight (store.go:400-414, the code
+   after the F8 repair 104da0c): Store.lookup_finish - install unless the name has a value by now *)
 Variable nm : name.
 Definition install (st : store V) (v : N) (b : V) (t : N) : store V :=
-  fst (lookup_install st nm v b (Z.of_N (t / 1000))).
+  fst (lookup_finish st nm v b (Z.of_N (t / 1000))).
 
 Definition step (s : lstate) (t : N) (e : ev) : lstate :=
   match e with
